@@ -269,6 +269,91 @@ def dc_case(item):
     return name, shape, sig, fails
 
 
+# ----------------------------------------------- signed key-exchange lies
+# A mutation of ServerKeyExchange parameters on the wire breaks the
+# signature, so the client stops at the signature check.  Here the *server*
+# lies before signing (its create*() is patched), so the signature is good
+# and the client reaches the code that uses the parameters.
+SIGNED_ECDH = [("empty", b""), ("infinity", b"\x00"),
+               ("short", b"\x04" + b"\x01" * 10),
+               ("offcurve", b"\x04" + b"\x01" * 64),
+               ("x-too-big", b"\x04" + b"\xff" * 64),
+               ("compressed", b"\x02" + b"\x01" * 32),
+               ("hybrid", b"\x06" + b"\x01" * 64),
+               ("one-byte-04", b"\x04"), ("zeros-32", bytes(32)),
+               ("long", b"\x04" + b"\x01" * 200)]
+SIGNED_DH = [("Ys=0", lambda p, g, y: (p, g, 0)),
+             ("Ys=1", lambda p, g, y: (p, g, 1)),
+             ("Ys=p-1", lambda p, g, y: (p, g, p - 1)),
+             ("Ys=p", lambda p, g, y: (p, g, p)),
+             ("Ys=p+1", lambda p, g, y: (p, g, p + 1)),
+             ("g=0", lambda p, g, y: (p, 0, y)),
+             ("g=1", lambda p, g, y: (p, 1, y)),
+             ("p=0", lambda p, g, y: (0, g, y)),
+             ("p=1", lambda p, g, y: (1, g, y)),
+             ("p=tiny", lambda p, g, y: (23, 5, 8)),
+             ("p=even", lambda p, g, y: (p + 1, g, y))]
+SIGNED_CURVE = [("unknown-curve", 3, 0xfefe), ("sect163k1", 3, 1),
+                ("ffdhe-as-curve", 3, 256), ("another-curve", 3, None),
+                ("x448", 3, 30)]
+SIGNED_SCENS = ["TLS1.2-ECDHE_RSA", "TLS1.0-ECDHE_RSA", "TLS1.2-ECDHE_ECDSA",
+                "TLS1.2-DHE_RSA", "TLS1.0-DHE_RSA", "TLS1.2-DHE_DSA",
+                "SSLv3-DHE_RSA"]
+
+
+def signed_ske_cases():
+    out = []
+    for sn in SIGNED_SCENS:
+        if "ECDHE" in sn:
+            for i in range(len(SIGNED_ECDH)):
+                out.append((sn, "point", i))
+            for i in range(len(SIGNED_CURVE)):
+                out.append((sn, "curve", i))
+        else:
+            for i in range(len(SIGNED_DH)):
+                out.append((sn, "dh", i))
+    return out
+
+
+def signed_ske_case(item):
+    (sn, kind, i), seed = item
+    from tlslite.messages import ServerKeyExchange as SKE
+    sc = [x for x in S.flavours("thorough") if x.name == sn][0]
+    o_ecdh, o_dh = SKE.createECDH, SKE.createDH
+    if kind == "point":
+        label, pt = SIGNED_ECDH[i]
+
+        def ecdh(self, curve_type, named_curve=None, point=None):
+            return o_ecdh(self, curve_type, named_curve, bytearray(pt))
+        SKE.createECDH = ecdh
+    elif kind == "curve":
+        label, ct, cv = SIGNED_CURVE[i]
+
+        def ecdh(self, curve_type, named_curve=None, point=None):
+            other = cv
+            if other is None:       # a supported curve, not the real one
+                other = 23 if named_curve != 23 else 29
+            return o_ecdh(self, ct, other, point)
+        SKE.createECDH = ecdh
+    else:
+        label, fn = SIGNED_DH[i]
+
+        def dh(self, dh_p, dh_g, dh_Ys):
+            return o_dh(self, *fn(dh_p, dh_g, dh_Ys))
+        SKE.createDH = dh
+    name = "signed-ske/%s/%s-%s" % (sn, kind, label)
+    try:
+        r = run_one(sc, seed, "C", {})
+    finally:
+        SKE.createECDH, SKE.createDH = o_ecdh, o_dh
+    pair, pup, out, m = r
+    sig, fails = judge(pair, out, "C", None, 0, 0)
+    if out["C"].status == "ok":
+        fails.append(({"kind": "accepted-degenerate-params"},
+                      "client completed the handshake with %s" % label))
+    return name, kind + "-" + label, sig, fails
+
+
 def _hs(t, body):
     return bytes([t]) + len(body).to_bytes(3, "big") + bytes(body)
 
@@ -491,6 +576,83 @@ def semantic_cases():
         for sel in ("TLS1.2-ECDHE_RSA-GCM", "TLS1.3-RSA", "TLS1.3-PSK",
                     "TLS1.0-SRP", "TLS1.2-ECDHE_RSA-tickets"):
             C.append(("ch-ext-" + nm, sel, "S", "CH", ch_ext_raw(t, body)))
+
+    # several extensions changed together (each edit alone is covered above)
+    def ch_ext_drop(ext_type):
+        def m(data):
+            d = bytes(data)
+            o = 4 + 2 + 32
+            o += 1 + d[o]
+            o += 2 + int.from_bytes(d[o:o + 2], "big")
+            o += 1 + d[o]
+            if o >= len(d):
+                return d
+            head = d[:o]
+            exts = d[o + 2:]
+            out = b""
+            i = 0
+            while i + 4 <= len(exts):
+                t = int.from_bytes(exts[i:i + 2], "big")
+                ln = int.from_bytes(exts[i + 2:i + 4], "big")
+                if t != ext_type:
+                    out += exts[i:i + 4 + ln]
+                i += 4 + ln
+            return _hs(1, head[4:] + struct.pack(">H", len(out)) + out)
+        return m
+
+    def chain(*fns):
+        def m(data):
+            for f in fns:
+                data = f(data)
+                if data is None:
+                    return None
+            return data
+        return m
+
+    def psk_body(idents, binders):
+        ib = b"".join(struct.pack(">H", len(i)) + i + b"\x00\x00\x00\x00"
+                      for i in idents)
+        bb = b"".join(bytes([len(b)]) + b for b in binders)
+        return struct.pack(">H", len(ib)) + ib + struct.pack(">H", len(bb)) \
+            + bb
+    KNOWN = b"verif-psk"
+    for nm, fn in (
+            ("psk-ke-only-no-keyshare-no-groups-unknown-id", chain(
+                ch_ext_drop(51), ch_ext_drop(10),
+                ch_ext_raw(45, b"\x01\x00"),
+                ch_ext_raw(41, psk_body([b"nobdy"], [bytes(32)])))),
+            ("psk-ke-only-no-keyshare-no-groups-known-id", chain(
+                ch_ext_drop(51), ch_ext_drop(10),
+                ch_ext_raw(45, b"\x01\x00"),
+                ch_ext_raw(41, psk_body([KNOWN], [bytes(32)])))),
+            ("psk-ke-only-no-keyshare", chain(
+                ch_ext_drop(51), ch_ext_raw(45, b"\x01\x00"),
+                ch_ext_raw(41, psk_body([b"nobdy"], [bytes(32)])))),
+            ("psk-dhe-no-keyshare-no-groups", chain(
+                ch_ext_drop(51), ch_ext_drop(10),
+                ch_ext_raw(41, psk_body([b"nobdy"], [bytes(32)])))),
+            ("no-keyshare-no-groups", chain(ch_ext_drop(51),
+                                            ch_ext_drop(10))),
+            ("no-keyshare-no-groups-no-psk", chain(
+                ch_ext_drop(51), ch_ext_drop(10), ch_ext_drop(41),
+                ch_ext_drop(45))),
+            ("psk-two-identities-one-binder", ch_ext_raw(
+                41, psk_body([b"nobdy", KNOWN], [bytes(32)]))),
+            ("psk-two-identities-one-binder-48", ch_ext_raw(
+                41, psk_body([b"nobdy", KNOWN], [bytes(48)]))),
+            ("psk-one-identity-two-binders", ch_ext_raw(
+                41, psk_body([KNOWN], [bytes(32), bytes(32)]))),
+            ("psk-known-identity-no-modes", chain(
+                ch_ext_drop(45),
+                ch_ext_raw(41, psk_body([KNOWN], [bytes(32)])))),
+            ("psk-known-identity-no-sigalgs", chain(
+                ch_ext_drop(13),
+                ch_ext_raw(41, psk_body([KNOWN], [bytes(32)])))),
+            ("no-sigalgs-no-psk", chain(ch_ext_drop(13), ch_ext_drop(41),
+                                        ch_ext_drop(45)))):
+        for sel in ("TLS1.3-PSK", "TLS1.3-RSA", "TLS1.3-tickets",
+                    "TLS1.3-HRR"):
+            C.append(("ch-multi-" + nm, sel, "S", "CH", fn))
 
     # the same kind of extension damage in a ClientHello whose legacy
     # version field is lower than TLS 1.2 (two fields changed together)
@@ -810,7 +972,10 @@ OTHER_OIDS = {"oid-prime192v2": bytes.fromhex("2a8648ce3d030102"),
               "oid-unknown-arc": bytes.fromhex("883701"),
               "oid-sha1rsa": bytes.fromhex("2a864886f70d010105"),
               "oid-secp224r1": bytes.fromhex("2b81040021"),
-              "oid-ed448": bytes.fromhex("2b6571")}
+              "oid-ed448": bytes.fromhex("2b6571"),
+              # key types whose support depends on an optional module
+              "oid-mldsa44": bytes.fromhex("608648016503040311"),
+              "oid-mldsa87": bytes.fromhex("608648016503040313")}
 
 
 def _der_tlv(tag, content):
@@ -1262,7 +1427,8 @@ def run(res, tier, seed):
         "every field boundary (with and without corrected header), trailing "
         "and stray bytes; semantic: hand-written parsable-but-unexpected "
         "values (DH/ECDH parameters, extensions, certificates, compressed "
-        "certificates incl. bombs, delegated credentials); record level: all 256 first bytes, "
+        "certificates incl. bombs, delegated credentials, degenerate "
+        "key-exchange parameters under a good signature); record level: all 256 first bytes, "
         "empty / oversized records, SSLv2 headers; post-handshake: NST, "
         "KeyUpdate, CertificateRequest, PHA flight, heartbeat; every message "
         "replaced / cut with the victim keeping its socket "
@@ -1317,6 +1483,19 @@ def run(res, tier, seed):
             res.violation(k, {"case": name, "fail": text},
                           {"delegated_credential": name})
     res.section("delegated_credentials", cases=ndc)
+    nsk = 0
+    for (name, label, sig, fails) in pmap(
+            signed_ske_case, [(c, seed) for c in signed_ske_cases()]):
+        nsk += 1
+        res.count()
+        res.outcome(("signed-ske", label, sig))
+        for (k, text) in fails:
+            k = dict(k)
+            k["case"] = "signed-ske-" + label
+            res.violation(k, {"case": name, "fail": text},
+                          {"signed_ske": name})
+    res.section("signed_server_key_exchange", cases=nsk,
+                scenarios=SIGNED_SCENS)
     DER_DEPTH[0] = 4 if tier == "quick" else 9
     cases = semantic_cases()
     ns = 0
